@@ -173,6 +173,26 @@ def e_case(c):
         check(abs(np.abs(H3[ib]) ** 2 - want2) <= btol(want2), "bragg-reflectivity!=tanh^2(kL*int p)",
               f"second callable profile with the same design numbers: |H|^2 = {np.abs(H3[ib]) ** 2:.6f} vs {want2:.6f} (first profile gave {A[ib] ** 2:.6f})")
         base["apodization"] = apod = profile(apo, c["a"], c["b"])
+        # ONE profile object whose parameters are changed between two calls (a tunable apodisation swept in a loop): each response is that of the
+        # profile as it evaluates at the time of the call
+        if apo == "callable":
+            class Tunable:
+                def __init__(self, a_, b_):
+                    self.a_, self.b_ = a_, b_
+
+                def __call__(self, z):
+                    return np.maximum(0.05, 1 + self.a_ * np.cos(2 * np.pi * z) + self.b_ * z ** 2)
+            tun = Tunable(c["a"], c["b"])
+            saved = base.pop("apodization")
+            for a_t, b_t in ((c["a"], c["b"]), (a2, b2)):
+                tun.a_, tun.b_ = a_t, b_t
+                _, Ht = call_fbg(x, apodization=tun, **base, **spec)
+                integ_t, _ = integrate.quad(tun, -0.5, 0.5, epsabs=1e-12, limit=200)
+                want_t = np.tanh(kL * integ_t) ** 2
+                check(abs(np.abs(Ht[ib]) ** 2 - want_t) <= btol(want_t), "bragg-reflectivity!=tanh^2(kL*int p)",
+                      f"tunable profile object set to a={a_t:.3f} b={b_t:.3f}: |H|^2 = {np.abs(Ht[ib]) ** 2:.6f} vs {want_t:.6f}")
+            base["apodization"] = saved
+            errclass.append("tunable-profile-object")
     # the same design on another grid, configured later in the same process: the response is computed for the grid now in force
     if F == 0 and c["m"] == 0:
         fs2 = fs * (0.5 if fs > 60e9 else 2.0)
